@@ -773,6 +773,11 @@ class CallMixin:
             return Sym("unop", "Invert", self.resolve_alt(args[0]))  # same value as `~x`
         if q in ("functools.wraps", "functools.update_wrapper"):
             return RefV("builtins.__identity__")
+        if q in ("functools.lru_cache", "functools.cache"):
+            # a memoised function computes what the function computes (whether sharing the cached object is harmless is C20's rule)
+            if len(args) == 1 and not kwargs and isinstance(args[0], (FuncV, BoundV)):
+                return args[0]
+            return RefV("builtins.__identity__")
         if q == "re.compile" and args and isinstance(args[0], (Const,)) and isinstance(args[0].v, str):
             fl = args[1] if len(args) > 1 else kwargs.get("flags")
             flags: Tuple[str, ...] = ()
